@@ -4,7 +4,7 @@
    from the freshly generated derived.gen.go. *)
 From Coq Require Import List.
 Import ListNotations.
-From Verif Require Import Chan.Sem Chan.Expected Chan.FmapProofs.
+From Verif Require Import Chan.Sem Chan.Expected Chan.FmapProofs Chan.DupProofs.
 
 (* ---------------- deriveFmap(f, <-chan) ---------------- *)
 Theorem C19_fmap_safety : forall (f : item -> item) xs cin cout s,
@@ -33,3 +33,36 @@ Theorem C19_fmap_terminates : forall (f : item -> item) xs cin cout l s,
   run f (fn_progs exp_fmap) (fmap_init xs cin cout) l = Some s -> length l <= length xs * 7 + 5.
 Proof. exact fmap_terminates. Qed.
 Print Assumptions C19_fmap_terminates.
+
+(* ---------------- deriveDup(c) (c1, c2) with two independent consumers ---------------- *)
+Theorem C19_dup_safety : forall (f : item -> item) xs cin c1 c2 s,
+  reach f (fn_progs exp_dup) (dup_init xs cin c1 c2) s ->
+  panicked s = false
+  /\ (exists rest, xs = cons_log s 2 ++ rest)
+  /\ (exists rest, xs = cons_log s 3 ++ rest)
+  /\ (ch_closed s 1 = true ->
+        prod_done s 0 = true /\ ch_closed s 0 = true /\ ch_buf s 0 = [] /\ prod_rem s 0 = []
+        /\ xs = cons_log s 2 ++ ch_buf s 1)
+  /\ (ch_closed s 2 = true ->
+        prod_done s 0 = true /\ ch_closed s 0 = true /\ ch_buf s 0 = [] /\ prod_rem s 0 = []
+        /\ xs = cons_log s 3 ++ ch_buf s 2).
+Proof. exact dup_safety. Qed.
+Print Assumptions C19_dup_safety.
+
+Theorem C19_dup_deadlock_free_no_leak : forall (f : item -> item) xs cin c1 c2 s,
+  reach f (fn_progs exp_dup) (dup_init xs cin c1 c2) s -> stuck f (fn_progs exp_dup) s ->
+  all_halted (fn_progs exp_dup) s = true /\ cons_log s 2 = xs /\ cons_log s 3 = xs
+  /\ ch_closed s 1 = true /\ ch_closed s 2 = true.
+Proof. exact dup_stuck_is_done. Qed.
+Print Assumptions C19_dup_deadlock_free_no_leak.
+
+Theorem C19_dup_measure_decreases : forall (f : item -> item) xs cin c1 c2 s act s',
+  reach f (fn_progs exp_dup) (dup_init xs cin c1 c2) s ->
+  step f (fn_progs exp_dup) s act = Some s' -> DupProofs.mu s' < DupProofs.mu s.
+Proof. exact dup_measure_decreases. Qed.
+Print Assumptions C19_dup_measure_decreases.
+
+Theorem C19_dup_terminates : forall (f : item -> item) xs cin c1 c2 l s,
+  run f (fn_progs exp_dup) (dup_init xs cin c1 c2) l = Some s -> length l <= length xs * 8 + 7.
+Proof. exact dup_terminates. Qed.
+Print Assumptions C19_dup_terminates.
